@@ -8,6 +8,8 @@
 package c28
 
 import (
+	"bytes"
+	"encoding/binary"
 	"encoding/json"
 	"errors"
 	"fmt"
@@ -252,7 +254,47 @@ func TestC28(t *testing.T) {
 			keys = append(keys, keyed{kt.kind, ipns.NameFromPeer(pid), pid})
 		}
 	}
-	for _, k := range keys[:4] {
+	// Names whose multihash ends in (or contains) bytes that mean something to the text
+	// layers around it: '/', NUL, '.', ':', LF, 0xff, and "/ipns/"-like sequences.  They go
+	// first.  Ed25519 and Secp256k1 peer IDs are identity multihashes of the public key, RSA /
+	// ECDSA ones sha2-256 multihashes; both kinds are searched for from fixed counters (a
+	// few hundred cheap trials each, the same on every run).
+	var special []keyed
+	for _, want := range []byte{0x2f, 0x00, 0x2e, 0x3a, 0x0a, 0xff} {
+		for ctr := uint32(0); ; ctr++ {
+			seed := make([]byte, 32)
+			binary.BigEndian.PutUint32(seed, ctr)
+			seed[31] = want
+			priv, _, err := ci.GenerateEd25519Key(bytes.NewReader(seed))
+			if err != nil {
+				t.Fatal(err)
+			}
+			pid, err := peer.IDFromPrivateKey(priv)
+			if err != nil {
+				t.Fatal(err)
+			}
+			if pid[len(pid)-1] == want {
+				special = append(special, keyed{fmt.Sprintf("ed25519-ends-%02x", want), ipns.NameFromPeer(pid), pid})
+				break
+			}
+		}
+		for ctr := 0; ; ctr++ {
+			h := mustSha([]byte(fmt.Sprintf("c28-sha-%02x-%d", want, ctr)))
+			if h[len(h)-1] == want {
+				special = append(special, keyed{fmt.Sprintf("sha256-ends-%02x", want), ipns.NameFromPeer(peer.ID(h)), peer.ID(h)})
+				break
+			}
+		}
+	}
+	for i, data := range []string{"/ipns/", "/ipns/abc/", "x/ipns/y", "/", "//", "ipns", "/ipns/k51/../", "\x00/ipns/\x00", "a/"} {
+		h, err := mh.Sum([]byte(data), mh.IDENTITY, -1)
+		if err != nil {
+			t.Fatal(err)
+		}
+		special = append(special, keyed{fmt.Sprintf("identity-%d", i), ipns.NameFromPeer(peer.ID(h)), peer.ID(h)})
+	}
+	keys = append(special, keys...)
+	for _, k := range keys[len(special) : len(special)+4] {
 		b32, _ := k.name.Cid().StringOfBase('b')
 		g.names = append(g.names, k.name.String(), k.pid.String(), b32)
 	}
